@@ -1,6 +1,7 @@
 package main
 
 import (
+	"bytes"
 	"crypto/sha256"
 	"encoding/base64"
 	"encoding/hex"
@@ -208,6 +209,7 @@ func runC19(seed int64, n int, dir string, tier string) *Report {
 		}
 		var ops, outs []string
 		var desc []any
+		litter := map[string]bool{}
 		okStores := 0
 		// what a retrieve must return: the last document stored successfully under the identifier,
 		// as long as the harness has not damaged that entry since
@@ -327,6 +329,21 @@ func runC19(seed int64, n int, dir string, tier string) *Report {
 					rep.Count("op=fault:directory-removed")
 					continue
 				}
+				if force == nil && g.Chance(0.2) {
+					// files that are not entries appear next to an entry (what interrupted writers, editors and backup
+					// tools leave behind): long, so that anything written over them without truncation shows
+					junk := bytes.Repeat([]byte("leftover "), 600)
+					for _, suffix := range []string{".tmp", ".tmp-1", "~", ".bak"} {
+						name := entryName(id) + suffix
+						_ = os.WriteFile(filepath.Join(sdir, name), junk, 0o644)
+						litter[name] = true
+					}
+					ops = append(ops, "PLitter")
+					outs = append(outs, "(0, 0)")
+					desc = append(desc, map[string]any{"op": "fault: foreign files next to the entry", "id": id})
+					rep.Count("op=fault:litter")
+					continue
+				}
 				p := filepath.Join(sdir, entryName(id))
 				delete(expect, id)
 				switch f := g.Int(5); f {
@@ -385,6 +402,8 @@ func runC19(seed int64, n int, dir string, tier string) *Report {
 				return nil
 			case filepath.Dir(p) == sdir && entryRe.MatchString(filepath.Base(p)):
 				return nil
+			case filepath.Dir(p) == sdir && litter[filepath.Base(p)]:
+				return nil // put there by the harness
 			}
 			rep.Fail(Failure{What: "the store created a file outside the configured directory or under a name that is not the hashed entry name", Detail: rel, Input: map[string]any{"history": desc}})
 			return nil
@@ -487,9 +506,12 @@ func (rep *Report) sameProcessHistory(g *gen.G, cf *CasesFile) {
 			id := gen.Pick(g, append(ids, "unknown"))
 			script = append(script, []string{"retrieve", hex.EncodeToString([]byte(id))})
 			ops = append(ops, "(PRetrieve "+coqfmt.Str(id)+")")
-		case k < 9:
+		case k < 8:
 			script = append(script, []string{"wipe"})
 			ops = append(ops, "PWipe")
+		case k < 9:
+			script = append(script, []string{"litter", entryName(gen.Pick(g, ids))})
+			ops = append(ops, "PLitter")
 		default:
 			id := gen.Pick(g, ids)
 			script = append(script, []string{"remove", entryName(id)})
@@ -527,7 +549,7 @@ func (rep *Report) sameProcessHistory(g *gen.G, cf *CasesFile) {
 				}
 			}
 		}
-		if c[0] == "wipe" || c[0] == "remove" {
+		if c[0] == "wipe" || c[0] == "remove" || c[0] == "litter" {
 			outs = append(outs, "(0, 0)")
 		} else {
 			outs = append(outs, outcomePair(co, tk))
